@@ -74,7 +74,10 @@ CHECKS["C09"] = dict(
     design="§6 C09", technique="Lean 4 proof (supportedness in stable models of the accumulated ground program) + runtime monitor on real answer sets")
 
 CHECKS["C04"] = dict(
-    text="Theorems (Lean 4): unshift_equiv — the head formula shifted by d steps by the code's until→next→shift recursion means, d "
+    text="Theorems (Lean 4): head_doc_eq — the head create_formula implements the documented THT reading of every head-admissible "
+         "formula; emitted_heads_in_ranges — the time ranges TheoryAtomTransformer computes for the atoms of a head formula cover "
+         "every atom that stands in a clause of the formula shifted by d steps (the domain rule introduces every atom the step-wise "
+         "translation can put into a rule head); head_clauses_mean_formula; unshift_equiv — the head formula shifted by d steps by the code's until→next→shift recursion means, d "
          "states later, what the formula means now, in every world of every THT interpretation, any nesting (termination is part of "
          "the definition); unfold_cnf — unfold_formula is distribution into CNF; clauses_at_step combines them; shift_iff — "
          "time-stratified shifting (moving off-time disjuncts into the body under default negation, as translate_clause does) "
@@ -82,7 +85,8 @@ CHECKS["C04"] = dict(
          "and is validated, not proved: the composition with incremental grounding (domain rule ranges, head atoms that are facts, "
          "several formulas per state) is exercised by the search against the brute-force THT equilibrium enumerator on the head "
          "operator-pair grid, interaction programs and random programs.  Tie: representation equality of create_formula / "
-         "shift_formula / unfold_formula between implementation and model at shifts 0..3.",
+         "shift_formula / unfold_formula between implementation and model at shifts 0..3 (size-capped); the model's time ranges vs "
+         "the real transform_theory_atom; the real IntervalSet vs the model.",
     design="§6 C04", technique="Lean 4 proof (THT equivalence of shifting/unfolding, stratified shifting lemma; partial end-to-end) + function-level correspondence")
 
 CHECKS["C16"] = dict(
